@@ -213,7 +213,8 @@ def work(unit):
     name, a, b, mode, grid, tier, seed = unit
     res = UnitResult()
     spell = U.spellings(seed)
-    spell_names = ["ascii", "unicode"] if tier == "quick" else list(spell)
+    spell_names = ["ascii", "unicode", "mixed"] if tier == "quick" \
+        else list(spell)
     if grid == "tiny":
         spell_names = ["ascii"]
     netlist = nets.networks(name)[a:b]
